@@ -471,6 +471,8 @@ def name_hooks(cx, S):
     def fmt(template, a, k):
         if template == '{:04d}':
             return StrV(S.count_bytes(a[0]))
+        if '{:' in template or '{!' in template:
+            raise Unsupported('format template %r is not modelled' % template)
         return make(template.endswith('\0'), S.current_run)
 
     def fstr(parts):
@@ -729,19 +731,399 @@ class FileBranchSameDigits(FileBranch):
         return FileBranch.payload_equal(self, cx, S)
 
 
+
+# ---- numpy.generic normalisation ---------------------------------------------------------------------------------------
+
+class GenericData(Data):
+    """a numpy scalar (numpy.generic) of dtype kind `kind`; python_type(x) converts it (see ConvBuiltin)"""
+
+    def __init__(self, cx, run, kind, typename, content):
+        Data.__init__(self, cx, 'generic', run, typename=typename, content=content, strbytes=content)
+        self.kind = kind
+        self.attrs = {'dtype': SObj('dtype', attrs={'kind': kind})}
+
+    def isinstance_(self, ctx, types):
+        return any(isinstance(t, ClassRef) and t.__name__ == 'generic' for t in types)
+
+
+PY_OF_KIND = {'b': 'bool', 'i': 'int', 'u': 'int', 'f': 'float', 'c': 'complex'}
+
+
+class ConvBuiltin(Builtin):
+    """bool / int / float / complex as seen by nutils_hash: isinstance/identity target AND converter of numpy scalars.
+    Axiom: T(x) for a numpy scalar x whose dtype kind belongs to T is THE Python value of type T equal to x; a
+    conversion with another type gives a value of that other type (not the equal Python value)."""
+
+    def __init__(self, name, S):
+        Builtin.__init__(self, name)
+        orig = self.fn
+
+        def conv(ctx, x=None, *a):
+            if isinstance(x, GenericData):
+                ctx.used_axioms.add('T(x) for a numpy scalar x of the kind of T (bool_/integer/floating/complexfloating) is the Python value of type T equal to x')
+                return S.python_value(ctx, name, x)
+            if orig is None:
+                raise Unsupported('builtin %s is not modelled' % name)
+            return orig(ctx, x, *a)
+        self.fn = conv
+
+
+class GenericBranch(Leaf):
+    """numpy scalar normalisation: run 1 hashes a numpy scalar of dtype kind k, run 2 the equal Python value; the
+    two outer buffers must be the same byte string (type name of the PYTHON type, digest of the same repr)."""
+
+    def __init__(self, kind):
+        self.npkind = kind
+        Leaf.__init__(self, PY_OF_KIND[kind])
+        self.label = 'numpy-generic,kind=%s' % kind
+
+    def base_globals(self, cx, S):
+        g = Leaf.base_globals(self, cx, S)
+        S.pytypename = {}
+        S.converted = {}
+
+        def tn(name):
+            if name not in S.pytypename:
+                S.pytypename[name] = BytesV.fresh_bytes(cx, 'typename.%s' % name, nonzero=True)
+            return S.pytypename[name]
+        S.tn = tn
+
+        def python_value(ctx, name, x):
+            if name == PY_OF_KIND[x.kind]:
+                content = x.content  # the equal Python value: same repr as the Python scalar of run 2
+            else:
+                content = BytesV.fresh_bytes(ctx, 'repr-after-conversion-to-%s' % name)
+            d = Data(ctx, name, x.run, typename=tn(name), content=content, strbytes=content)
+            S.converted[x.run] = d
+            return d
+        S.python_value = python_value
+        for name in ('bool', 'int', 'float', 'complex'):
+            g[name] = ConvBuiltin(name, S)
+        return g
+
+    def make(self, cx, S, run):
+        if run == 1:
+            S.shared = BytesV.fresh_bytes(cx, 'repr-of-the-python-value')
+            return GenericData(cx, run, self.npkind, BytesV.fresh_bytes(cx, 'typename.numpy-scalar-type', nonzero=True), S.shared)
+        return Data(cx, self.kind, run, typename=S.tn(self.kind), content=S.shared, strbytes=S.shared)
+
+    def ensures(self, cx, S, result):
+        b1, b2 = S.bufs[1], S.bufs[2]
+        for a in S.inner_all.get(1, []):
+            for b in S.inner_all.get(2, []):
+                cx.assume(z3.Implies(beq(a.source, b.source), qforall(1, lambda k: z3.Implies(z3.And(0 <= k, k < 20), a.sel(k) == b.sel(k)))),
+                          axiom='SHA-1 is a function: equal inputs => equal digests')
+        return [('normalised-to-python-scalar', beq(b1, b2))]
+
+    def replay(self, ob):
+        import os
+        here = os.path.dirname(os.path.dirname(os.path.abspath(__file__)))
+        return "import sys; sys.path.insert(0, %r)\nfrom native import c17\nc17.%s()\n" % (here, 'unsigned_generic' if self.npkind == 'u' else 'generic_normalisation')
+
+
+
+# ---- bound methods (types.MethodType) ----------------------------------------------------------------------------------
+
+class MethodBranch(TwoRuns):
+    """bound method: digest of __self__ followed by digest of __name__ (two fixed-width blocks).  Equal buffers force
+    equal digests of the instance and equal method names."""
+    kind = 'MethodType'
+
+    def __init__(self):
+        TwoRuns.__init__(self)
+        self.label = 'MethodType'
+
+    def make(self, cx, S, run):
+        fam = Family(cx, 'self.run%d' % run)
+        mname = BytesV.fresh_bytes(cx, 'method-name.run%d' % run)
+        d = Data(cx, 'MethodType', run, typename=self.typename(cx, run), fam=fam, mname=mname)
+        d.attrs = {'__self__': Child(fam, z3.IntVal(0)), '__name__': StrV(mname), '__func__': SOpaque('function')}
+        return d
+
+    def base_globals(self, cx, S):
+        g = TwoRuns.base_globals(self, cx, S)
+        inner = g['nutils_hash']
+        S.strdigests = {1: [], 2: []}
+
+        def nh(ctx, x):
+            d = inner(ctx, x)
+            if isinstance(x, StrV):
+                S.strdigests[S.current_run].append(d)
+            return d
+        g['nutils_hash'] = nh
+        return g
+
+    def payload_equal(self, cx, S):
+        d1, d2 = S.data[1], S.data[2]
+        for a in S.strdigests[1]:
+            for b in S.strdigests[2]:
+                cx.assume(z3.Implies(qforall(1, lambda k: z3.Implies(z3.And(0 <= k, k < 20), a.sel(k) == b.sel(k))), beq(a.source, b.source)),
+                          axiom='nutils_hash of str is injective (str branch of this contract, induction hypothesis)')
+        same_self = qforall(1, lambda b: z3.Implies(z3.And(0 <= b, b < 20), DG(d1.fam.f(0), b) == DG(d2.fam.f(0), b)))
+        return z3.And(same_self, beq(d1.mname, d2.mname))
+
+    def replay(self, ob):
+        import os
+        here = os.path.dirname(os.path.dirname(os.path.abspath(__file__)))
+        return "import sys; sys.path.insert(0, %r)\nfrom native import c17\nc17.method_branch()\n" % here
+
+
+
+# ---- dataclasses branch ------------------------------------------------------------------------------------------------
+
+PAIR = z3.Function('digest_of_pair', I, I, I)  # ident of nutils_hash((name, value)) from (name id, ident of nutils_hash(value))
+NAMEID = z3.Function('field_name_id', I, I)  # field index -> name (as an id); injective on the fields of one class
+DIFF = z3.Function('differing_byte', I, I, I)  # two different digests differ at this position
+
+
+class FieldObj(Sym):
+    def __init__(self, j):
+        self.j = j
+
+    def getattr(self, ctx, name):
+        if name == 'name':
+            return FieldName(None, self.j)
+        raise Unsupported('dataclasses.Field.%s' % name)
+
+
+class DataclassBranch(TwoRuns):
+    """stdlib dataclass instance: one digest per field of nutils_hash((field name, field value)), sorted.  Two instances
+    of ONE dataclass type (n fields, pairwise distinct names, symbolic values): equal buffers force, for EVERY field,
+    equal digests of the two values (the name inside each item is what makes the sort harmless)."""
+    kind = 'dataclass'
+    split_conjunctions = True
+
+    def __init__(self):
+        TwoRuns.__init__(self)
+        self.label = 'dataclass,two-values-of-one-type'
+
+    def make_loops(self, S):
+        inv = block_invariant(S, lambda it: 20)
+        return {0: Loop(inv, label='blocks', match=('for item in sorted', 'for item in (', 'for item in map', 'for item in [', 'for field in'))}
+
+    def make(self, cx, S, run):
+        if run == 1:
+            S.nfields = cx.int('nfields')
+            cx.assume(S.nfields >= 0)
+            S.dc_typename = self.typename(cx, run)
+            S.fields = {}
+        fam = Family(cx, 'fieldvalue.run%d' % run)
+        d = Data(cx, 'dataclass', run, typename=S.dc_typename, fam=fam, n=S.nfields)
+        S.fields[run] = SymSeq(S.nfields, lambda j: FieldObj(j), 'fields')
+        return d
+
+    def base_globals(self, cx, S):
+        g = TwoRuns.base_globals(self, cx, S)
+
+        def nh(ctx, x):
+            data = S.data[S.current_run]
+            if isinstance(x, tuple) and len(x) == 2 and isinstance(x[0], FieldName) and isinstance(x[1], Child):
+                ctx.used_axioms.add('nutils_hash((name, value)) is determined by, and determines, the name and nutils_hash(value) (tuple and str branches of this contract; induction hypothesis)')
+                return Digest(ctx, ident=PAIR(NAMEID(x[0].j), x[1].fam.f(x[1].j)), label='pair-digest')
+            if isinstance(x, Child):
+                return x.fam.digest(ctx, x.j)
+            if isinstance(x, FieldName):
+                return Digest(ctx, ident=PAIR(NAMEID(x.j), z3.IntVal(-1)), label='name-digest')
+            raise Unsupported('recursive nutils_hash of %r' % (x,))
+        g['nutils_hash'] = nh
+
+        def ga(ctx, o, nm, *default):
+            if isinstance(nm, FieldName) and isinstance(o, Data):
+                return Child(o.fam, nm.j)
+            raise Unsupported('getattr(%r, %r)' % (o, nm))
+        g['getattr'] = ga
+        return g
+
+    def setup(self, cx):
+        S = TwoRuns.setup(self, cx)
+        S.block_of = lambda it, j: it.seq_at(cx, j)
+        return S
+
+    def ensures(self, cx, S, result):
+        b1, b2 = S.bufs[1], S.bufs[2]
+        n = S.nfields
+        d1, d2 = S.data[1], S.data[2]
+        (base1, pre1, it1), (base2, pre2, it2) = S.snap[('pre', 1)], S.snap[('pre', 2)]
+        ident = lambda j: j
+        s1, s1inv = getattr(it1, 'sigma', ident), getattr(it1, 'sigma_inv', ident)
+        s2 = getattr(it2, 'sigma', ident)
+        j0 = cx.int('field')  # an arbitrary field
+        cx.assume(z3.And(0 <= j0, j0 < n))
+        p = s1inv(j0)  # its position in run 1's sorted sequence
+        e = s2(p)  # the field run 2 has at that position
+        A1, A2 = S.block_of(it1, p), S.block_of(it2, p)
+        x, y = getattr(A1, 'ident', None), getattr(A2, 'ident', None)
+        if x is None or y is None:
+            return [('payload', z3.BoolVal(False))]
+        K = DIFF(x, y)
+        cx.assume(z3.Implies(x != y, z3.And(0 <= K, K < 20, DG(x, K) != DG(y, K))), axiom='digest identity: two different digests differ in one of their 20 bytes')
+        # instances (for the two items at position p) of: PAIR is injective; field names are pairwise distinct
+        if z3.is_app(x) and z3.is_app(y) and x.decl().eq(PAIR) and y.decl().eq(PAIR):
+            cx.assume(z3.Implies(x == y, z3.And(x.arg(0) == y.arg(0), x.arg(1) == y.arg(1))),
+                      axiom='nutils_hash((name, value)) is determined by, and determines, the name and nutils_hash(value) (tuple and str branches of this contract; induction hypothesis)')
+        cx.assume(z3.Implies(z3.And(0 <= e, e < n, NAMEID(e) == NAMEID(j0)), e == j0), axiom='the fields of a dataclass have pairwise distinct names')
+        # instantiation hints: the two buffers at the byte where the blocks at position p would differ
+        cx.assume(z3.Implies(beq(b1, b2), b1.sel(base1 + 20 * p + K) == b2.sel(base1 + 20 * p + K)))
+        same_value = qforall(1, lambda b: z3.Implies(z3.And(0 <= b, b < 20), DG(d1.fam.f(j0), b) == DG(d2.fam.f(j0), b)))
+        return [('payload', z3.Implies(beq(b1, b2), z3.And(e == j0, same_value)))]
+
+    def replay(self, ob):
+        import os
+        here = os.path.dirname(os.path.dirname(os.path.abspath(__file__)))
+        return "import sys; sys.path.insert(0, %r)\nfrom native import c17\nc17.dataclass_branch()\n" % here
+
+
+
+# ---- frozenmultiset.__nutils_hash__ -------------------------------------------------------------------------------------
+
+CNT = z3.Function('count_field_byte', I, I, I)  # (count, position) -> byte of '{:04d}'.format(count), 0 <= count < 10**4
+CNTDIFF = z3.Function('count_field_differing_byte', I, I, I)
+
+
+class FixedBytes(BytesV):
+    """a byte string of concrete length given in closed form; concatenation with a digest stays closed form, so that
+    the block function can be evaluated under a quantifier"""
+
+    def binop(self, ctx, op, other, reflected):
+        if op == '+' and isinstance(other, (Digest, FixedBytes)):
+            a, b = (other, self) if reflected else (self, other)
+            r = bcat(a, b)
+            return FixedBytes(r.n, r.sel, r.name)
+        return BytesV.binop(self, ctx, op, other, reflected)
+
+
+class CounterItems(Sym):
+    def __init__(self, seq):
+        self.seq = seq
+
+    def getattr(self, ctx, name):
+        if name == 'items':
+            return lambda ctx: self.seq
+        raise Unsupported('Counter.' + name)
+
+
+class FrozenMultisetHash(SetLike):
+    """frozenmultiset.__nutils_hash__: qualified name + NUL, then the sorted blocks  '{:04d}'.format(count) + digest(item).
+    Multiplicities are assumed < 10**4 (4-digit field: every block is 24 bytes); see ASSUMPTIONS.
+      same-set-two-orders: the buffer does not depend on the iteration order of the underlying Counter
+      two-sets: equal buffers => equally many distinct items, and position by position in the canonical (sorted)
+                arrangement the same item digest WITH THE SAME MULTIPLICITY (i.e. the multisets of (digest, count) agree)"""
+    W = 24
+
+    def __init__(self, same_set):
+        SetLike.__init__(self, 'frozenset', same_set)
+        self.kind = 'frozenmultiset'
+        self.label = 'frozenmultiset,%s' % ('same-set-two-orders' if same_set else 'two-sets')
+        self.fn = self.target = 'types:frozenmultiset.__nutils_hash__'
+
+    def make_loops(self, S):
+        inv = block_invariant(S, lambda it: self.W)
+        return {0: Loop(inv, label='blocks', match=('for item in sorted', 'for item in map', 'for item in (', 'for item, count in'))}
+
+    def setup(self, cx):
+        S = SetLike.setup(self, cx)
+        S.names = {}
+        S.same_name = self.same_set
+        name_hooks(cx, S)
+
+        def count_bytes(c):
+            cx.used_axioms.add("'{:04d}'.format(c) for 0 <= c < 10**4: exactly four ASCII digits, injective in c")
+            cv = zint(c)
+            return FixedBytes(z3.IntVal(4), lambda i: CNT(cv, i), 'count-field')
+        S.count_bytes = count_bytes
+        return S
+
+    def make(self, cx, S, run):
+        if run == 2 and self.same_set:
+            first = S.data[1]
+            n, famk, abstract, tn, count = first.n, first.famk, first.abstract, first.typename, first.count
+        else:
+            n = cx.int('nitems.run%d' % run)
+            cx.assume(n >= 0)
+            famk = Family(cx, 'item.run%d' % run)
+            abstract = {}
+            tn = None
+            count = z3.Function('multiplicity!run%d!%d' % (run, uid()), I, I)
+            cx.assume(qforall(1, lambda e: z3.Implies(z3.And(0 <= e, e < n), z3.And(count(e) > 0, count(e) < 10000))))
+        elem = lambda e: (Child(famk, e), SInt(count(e)))
+        seq = Unordered(cx, n, elem, 'iter.run%d' % run, abstract)
+        abstract['elem_block'] = True
+        d = Data(cx, 'frozenmultiset', run, typename=tn, seq=seq, n=n, famk=famk, famv=None, abstract=abstract, count=count)
+        items = CounterItems(seq)
+        d.attrs = {'__items': items, '_frozenmultiset__items': items}
+        return d
+
+    def names(self, S, run):
+        if self.same_set:
+            return S.names[1] if 1 in S.names else S.names[run]
+        return S.names[run]
+
+    def payload_equal(self, cx, S):
+        d1, d2 = S.data[1], S.data[2]
+        b1, b2 = S.bufs[1], S.bufs[2]
+        (base1, pre1, it1), (base2, pre2, it2) = S.snap[('pre', 1)], S.snap[('pre', 2)]
+        rho1, rho2 = d1.abstract.get('rho'), d2.abstract.get('rho')
+        if rho1 is None or rho2 is None:
+            return z3.BoolVal(False)  # the items are no longer hashed in a canonical (sorted) arrangement
+        j0 = cx.int('canonical-position')
+        cx.assume(z3.And(0 <= j0, j0 < d1.n))
+        c1, c2 = d1.count(rho1(j0)), d2.count(rho2(j0))
+        K = CNTDIFF(c1, c2)
+        cx.assume(z3.Implies(z3.And(c1 != c2, 0 <= c1, c1 < 10000, 0 <= c2, c2 < 10000), z3.And(0 <= K, K < 4, CNT(c1, K) != CNT(c2, K))),
+                  axiom="'{:04d}'.format(c) for 0 <= c < 10**4: exactly four ASCII digits, injective in c")
+        # instantiation hint: the two buffers at the count byte that would differ
+        cx.assume(z3.Implies(beq(b1, b2), b1.sel(base1 + self.W * j0 + K) == b2.sel(base1 + self.W * j0 + K)))
+        bb = cx.int('digest-byte')
+        cx.assume(z3.And(0 <= bb, bb < 20))
+        cx.assume(z3.Implies(beq(b1, b2), b1.sel(base1 + self.W * j0 + (4 + bb)) == b2.sel(base1 + self.W * j0 + (4 + bb))))
+        return z3.And(d1.n == d2.n, c1 == c2, DG(d1.famk.f(rho1(j0)), bb) == DG(d2.famk.f(rho2(j0)), bb))
+
+    def replay(self, ob):
+        import os
+        here = os.path.dirname(os.path.dirname(os.path.abspath(__file__)))
+        return "import sys; sys.path.insert(0, %r)\nfrom native import c17\nc17.multiset()\n" % here
+
+
 def contracts():
     cs = [FileBranch(), FileBranchSameDigits(), ArrayBranch(True), ArrayBranch(False), Leaf('int'), Leaf('str'), Leaf('bytes'), Leaf('type'), Singleton('NoneType'),
           TupleLike('tuple'), TupleLike('getnewargs'),
           SetLike('frozenset', True), SetLike('frozenset', False), SetLike('dict', True), SetLike('dict', False),
           ObjHash('Immutable'), ObjHash('DataClass'), FrozenDictHash(True), FrozenDictHash(False)]
+    cs += [GenericBranch(k) for k in 'bifc'] + [MethodBranch(), DataclassBranch(), FrozenMultisetHash(True), FrozenMultisetHash(False)]
+    from contracts import C17_intern
+    cs += C17_intern.contracts()
     return cs
+
+
+# contracts that FAIL on the unchanged tree (candidate defects, see notes/C17-ext.md); kept, not run by default
+PARKED = [GenericBranch('u')]
 
 
 TRUSTED = ['pyvc symbolic executor; bytes as (length, index->byte); SHA-1 idealised as an injective function (cryptographic assumption)',
            'str.encode and repr of Python scalars are injective; type names contain no NUL byte',
            'sorted(): the ascending arrangement of a multiset (canonical); iteration over set/dict: every element once, arbitrary order',
-           'structural induction over values (meta): equal child digests => equal children']
+           'structural induction over values (meta): equal child digests => equal children',
+           'numpy scalars: T(x) with T the Python type of x\'s dtype kind (b->bool, i->int, f->float, c->complex) is the Python value equal to x (cross-checked in native/axioms.py)',
+           "'{:04d}'.format(c) for 0 <= c < 10**4 is exactly four ASCII digits and injective in c (cross-checked exhaustively in native/axioms.py)",
+           'dataclasses.fields(t): the fields in definition order, pairwise distinct names; dataclasses.is_dataclass(t) decides the branch',
+           'interning contracts (contracts/C17_intern.py): inspect.Signature.bind / BoundArguments.apply_defaults/.args/.kwargs/.arguments are executed by the REAL inspect module of the checker interpreter (CPython 3.11) on the concrete call structure, values opaque; the native replays exercise the same shapes under /venv (CPython 3.12)',
+           'interning contracts: == on argument values is an equivalence (modelled as equality of terms of an uninterpreted sort): NaN-like arguments are outside',
+           'interning contracts: a WeakValueDictionary all of whose values are alive behaves like a dict (get / [] / []=)',
+           'functools.update_wrapper(w, f) copies the four name attributes, UPDATES w.__dict__ with f.__dict__ and sets w.__wrapped__ (cross-checked in native/axioms.py); functools.partial(f, **k)(x) == f(x, **k)',
+           'arraydata: numpy.asarray is value preserving; ndarray.astype(T) keeps the shape, gives dtype numpy.dtype(T) and is the identity on arrays that already have that dtype; numpy.equal(a, b).all() iff the elements are equal as numbers; tobytes() is a function of (dtype, shape, values) (cross-checked in native/axioms.py)']
 ASSUMPTIONS = ['distinct hashed types have distinct __name__ (the `type` branch hashes only __name__): a real precondition of the code',
-               'recursive calls of nutils_hash satisfy the same contract (induction hypothesis)']
-NOT_COVERED = ['pickling in another process, GC histories of the weak intern tables, lru_cache buffer keys',
-               'interning (DataClassMeta.__call__, SingletonMeta._new), Immutable/DataClass/frozendict/frozenmultiset.__nutils_hash__, ndarray / file / MethodType / dataclass branches: see DESIGN 4.17 (being built)']
+               'recursive calls of nutils_hash satisfy the same contract (induction hypothesis); in the dataclass branch: nutils_hash((name, value)) determines name and nutils_hash(value) (tuple + str branches)',
+               'frozenmultiset: every multiplicity is < 10**4 (the count field is {:04d}: wider counts make the blocks variable-width; not claimed either way, a stated limit)',
+               'numpy scalars of kind b/i/f/c only; kind u (unsigned) is PARKED: nutils_hash raises KeyError (candidate defect, notes/C17-ext.md)',
+               'interning contracts are bounded: signature shapes (a, b, c=d), (a, b=d, *, k=d2), (a, **kw); 3-6 spellings per shape; intern table with one live prior entry of arbitrary key',
+               '_hashable_function_wrapper.__init__: the wrapped function carries no __nutils_hash__ of its own in its __dict__ (the other case is PARKED: candidate defect, notes/C17-ext.md)',
+               'arraydata.__new__: two arrays of one kind class with common shape and values; int64 treated as mathematical integers']
+NOT_COVERED = ['weak-reference lifetimes / garbage-collection histories of the intern tables (DataClassMeta.__cache, SingletonMeta._cache): outside the family, not modelled (tables are modelled with all values alive)',
+               'pickling in another process (only the __reduce__ -> rebuild round trip inside one process is under contract)',
+               'types.lru_cache (key on array buffers): needs numpy __array_interface__ addresses, the ndarray.base chain, flags.writeable and weakref callbacks -- a heap model of numpy objects that the engine does not have',
+               'types.frozenarray: mutates flags.writeable along the ndarray.base chain; same reason as lru_cache; it does not take part in hashing (nutils_hash of the result is the ndarray branch, under contract)',
+               'nutils_hash: the final `else: raise TypeError` and objects whose __nutils_hash__ attribute is user supplied (cache.function, util.function: C18); every other branch is under contract (numpy.generic kind u: PARKED)',
+               'arraydata.__init__ / reshape / __array_interface__; frozendict/frozenmultiset __eq__/__hash__ (Python hashing, not the nutils hash)',
+               'ImmutableMeta.__new__ / DataClassMeta.__init__ (class creation: how __signature__ and _canonicalize are derived from the class body)',
+               'System.__init__: that every behaviour-relevant attribute is a function of (trials, value | block residuals) is by reading the constructor, not checked; solver method objects Direct/Newton/... .__nutils_hash__ (same one-line pattern) are not under contract',
+               'evaluable builder.add_constant / util.function consumers of the hash']
